@@ -459,6 +459,9 @@ class RT(object):
 
   def _judge_raise(self, d, exc, si, T, form, noerr, declared, nested):
     RE = self.P["RE"]
+    # an owner may have died during the delivery (its last strong subscription removed by a return value,
+    # its last frame gone when its handler returned): tell the monitor before it decides who was skipped
+    self.poll_owners()
     self.mon.end_raise(d)
     del self.deliveries[d.id]
     handler_exc = self.abort_exc.get(d.id)
